@@ -5,7 +5,7 @@ import itertools
 
 from ..program import AnalysisError, walk_local, dotted
 from ..analysis import Spec, src, class_const, const_value
-from ..rules import (GWF, EXC, need_func, stores_to, is_const, eval_atom,
+from ..rules import (GWF, EXC, need_func, stores_to, is_const, eval_atom, eval_cond,
                      UNKNOWN, parent_map, raise_class)
 from . import common
 from .c07 import _explore
@@ -349,7 +349,7 @@ def _returns(an, f, c, env):
         seen.add(i)
         n = c.nodes[i]
         if n.kind == 'test':
-            v = eval_atom(n.ast, env)
+            v = eval_cond(f, n.ast, env)
             if v is UNKNOWN:
                 stack.extend(s for s in c.succ[i]
                              if (i, s) not in c.exc_edges)
